@@ -162,6 +162,7 @@ class World:
         self.tokens = []  # Token objects handed to Continue by steps (identity is checked by the receiving step)
         self.site_hook = None  # callable(proc, site, count): the environment acting from inside user code (e.g. a pause)
         self.hostile = False  # raise HostileFault instead of InjectedFault
+        self.bare_faults = False  # raise the fault without arguments
         self.fault = None  # (site, occurrence) -> raise InjectedFault there
         self.fault_counts = {}
         self.fault_fired = None  # the InjectedFault instance once raised
@@ -197,7 +198,8 @@ class World:
             self.site_hook(proc, site, count)
         fault = self.fault
         if fault is not None and fault[0] == site and fault[1] == count and self.fault_fired is None:
-            exc = (HostileFault if self.hostile else InjectedFault)(f'{site}#{count}')
+            cls = HostileFault if self.hostile else InjectedFault
+            exc = cls() if self.bare_faults else cls(f'{site}#{count}')  # `raise SomeError` without any argument is common
             self.fault_fired = exc
             self.rec('fault', site, count)
             raise exc
@@ -217,7 +219,7 @@ def label(proc):
 def _do_effect(proc, world, eff, plumpy):
     kind = eff['e']
     if kind == 'out':
-        proc.out(eff['k'], eff['v'])
+        proc.out(eff['k'], UncopyableValue() if eff['v'] == '__uncopyable__' else eff['v'])
     elif kind == 'status':
         proc.set_status(eff['v'])
     elif kind == 'callsoon':
@@ -284,6 +286,21 @@ def _do_effect(proc, world, eff, plumpy):
                 world.exec_stack.pop()
             world.rec('after_nested', label(proc), child_label, current_is(proc, plumpy), freeze(outputs),
                       child.state.value)
+    elif kind == 'execute_clone':
+        # the process checkpoints itself and a copy recreated from that checkpoint (same pid, another instance) is executed
+        # re-entrantly from inside this very step; the copy runs the step again, does not clone any further, and finishes
+        if not getattr(world, 'cloned', False):
+            world.cloned = True
+            clone = plumpy.Bundle(proc).unbundle(plumpy.LoadSaveContext(loop=proc.loop))
+            clone._sim_label = f'{label(proc)}.clone'
+            world.children.append(clone)
+            world.parent_of[id(clone)] = proc
+            world.exec_stack.append(proc)
+            try:
+                clone.execute()
+            finally:
+                world.exec_stack.pop()
+            world.rec('after_nested', label(proc), clone._sim_label, current_is(proc, plumpy), None, clone.state.value)
     elif kind in ('pause', 'play', 'kill'):
         live = not proc.has_terminated()
         try:
@@ -341,11 +358,22 @@ class UncopyableValue:
         self.lock = threading.Lock()
 
     def __repr__(self):
-        return 'UncopyableValue()'
+        return '__uncopyable__'  # (the marker cases and models use for it)
 
 
 def _make_ret(proc, world, ret, plumpy):
     kind = ret['t']
+    if ret.get('subcmd') and kind in ('continue', 'wait', 'stop', 'kill'):
+        # an application's own subclass of the command (e.g. class Retry(plumpy.Continue)): means what its base means
+        base = {'continue': plumpy.Continue, 'wait': plumpy.Wait, 'stop': plumpy.Stop, 'kill': plumpy.Kill}[kind]
+        plain = _make_ret(proc, world, {k: v for k, v in ret.items() if k != 'subcmd'}, plumpy)
+        if f'cmd:{kind}' not in _subclasses:
+            cls = type(f'App{base.__name__}', (base,), {})
+            generated.register(cls, f'App{base.__name__}')
+            _subclasses[f'cmd:{kind}'] = cls
+        clone = _subclasses[f'cmd:{kind}'].__new__(_subclasses[f'cmd:{kind}'])
+        clone.__dict__.update(plain.__dict__)
+        return clone
     if kind == 'continue':
         # (fresh objects every time: a step may change its arguments in place)
         args = copy.deepcopy(ret.get('args', []))
@@ -388,7 +416,7 @@ def _make_ret(proc, world, ret, plumpy):
     raise ValueError(f'unknown ret {kind}')
 
 
-def _make_step(index, step, world, plumpy):
+def _make_step(index, step, world, plumpy, program_reads_inputs=False):
     name = step_name(index)
     groups = list(step.get('effects') or [[]])
     awaits = list(step.get('awaits') or []) if step.get('async') else []
@@ -409,6 +437,8 @@ def _make_step(index, step, world, plumpy):
         trace = getattr(self, '_trace', None)
         if trace is not None:
             trace.append([name, freeze(args), freeze(kwargs)])
+        if program_reads_inputs:
+            world.rec('inputs', label(self), name, sorted(self.inputs))  # the parsed inputs are a mapping, also when empty
         for value in args:
             if isinstance(value, Token):
                 world.rec('token', label(self), name, value.number, any(value is known for known in world.tokens))
@@ -511,7 +541,7 @@ def build_process_class(program, world, plumpy, hooks=True, record_calls=True):
 
     namespace = {}
     for index, step in enumerate(program['steps']):
-        namespace[step_name(index)] = _make_step(index, step, world, plumpy)
+        namespace[step_name(index)] = _make_step(index, step, world, plumpy, bool(program.get('reads_inputs')))
 
     holders = []
     if hooks:
@@ -588,7 +618,15 @@ def build_process_class(program, world, plumpy, hooks=True, record_calls=True):
             world.rec('call', label(self), 'play', None, not self.has_terminated())
             return super(cls_ref[0], self).play()
 
-        namespace.update(kill=kill, pause=pause, play=play)
+        def message_receive(self, _comm, msg):
+            world.rec('msg', label(self), 'rpc', (msg or {}).get('intent') if isinstance(msg, dict) else None, not self.has_terminated())
+            return super(cls_ref[0], self).message_receive(_comm, msg)
+
+        def broadcast_receive(self, _comm, body, sender, subject, correlation_id):
+            world.rec('msg', label(self), 'broadcast', subject, not self.has_terminated())
+            return super(cls_ref[0], self).broadcast_receive(_comm, body, sender, subject, correlation_id)
+
+        namespace.update(kill=kill, pause=pause, play=play, message_receive=message_receive, broadcast_receive=broadcast_receive)
 
     _class_serial[0] += 1
     name = f'GenProcess{_class_serial[0]}'
@@ -722,6 +760,8 @@ def gen_process_program(rng, cfg=None):
                 if kind == 'out':
                     key = rng.choice(['a', 'b', 'ns.x', 'ns.y', 'ns.deep.z'])
                     group.append({'e': 'out', 'k': key, 'v': gen_value(rng)})
+                    if cfg.get('uncopyable_outputs') and rng.random() < 0.1:
+                        group[-1]['v'] = '__uncopyable__'  # e.g. a handle to a live resource
                 elif kind == 'status':
                     group.append({'e': 'status', 'v': rng.choice(['s1', 's2', 'busy', ''])})
                 elif kind == 'callsoon':
